@@ -38,22 +38,20 @@ theorem nestedStep_local (A N : Dict) (k q : Text) (qs : List Text) (va : Dict)
   | some kk =>
     simp only
     cases hr : reduceGet (.dict N) (q :: qs).dropLast with
-    | error e => cases e <;> simp [hself]
+    | error e => simp [hself]
     | ok x =>
       cases x with
-      | sc y => simp
-      | list y => simp
+      | sc y => simp [hself]
+      | list y => simp [hself]
       | dict nested =>
         simp only
         cases hg : dget nested kk with
         | none => simp [hself]
         | some value =>
-          simp only
-          cases hu : pyUpdate va value with
-          | mk d oe =>
-            cases oe with
-            | none => simp [setNested_cons A N k _ _ h]
-            | some e => simp [setNested_cons A N k _ _ h]
+          cases value with
+          | sc y => simp [hself]
+          | list y => simp [hself]
+          | dict e => simp [setNested_cons A N k _ _ h]
 
 theorem nestedAll_local (ps : List (List Text)) : ∀ (A N : Dict) (k : Text),
     (∀ p ∈ ps, p ≠ []) → dget A k = some (.dict N) →
